@@ -152,10 +152,12 @@ type runner struct {
 	viaLND  bool
 	viaCLN  bool
 	viaHTTP bool // melt, quote polls and state checks go through the HTTP handler
-	t      *testing.T
-	w      *world.World
-	used   int
-	seedNo uint64
+	bulk    int  // > 0: proof-state checks carry this many unrelated Ys in front
+	padding []string
+	t       *testing.T
+	w       *world.World
+	used    int
+	seedNo  uint64
 }
 
 // meltResult is what the runner reads from a melt or quote answer, whichever way it travelled.
@@ -219,7 +221,23 @@ func (r *runner) meltQuoteState(w *world.World, quote string) (meltResult, error
 	return meltResult{stateOf(doc.State), doc.Preimage}, err
 }
 
+// proofStates asks for the state of ys; with r.bulk > 0 the question is part of a large state check: r.bulk Ys the
+// mint has never seen stand in front of ys (a wallet checking everything it ever held), the answer for ys is the tail.
 func (r *runner) proofStates(w *world.World, ys []string) ([]nut07.ProofState, error) {
+	if r.bulk > 0 {
+		if len(r.padding) == 0 {
+			for i := 0; i < r.bulk; i++ {
+				_, y := world.Y(fmt.Sprintf("c05 never seen %d", i))
+				r.padding = append(r.padding, y)
+			}
+		}
+		all := append(append([]string{}, r.padding...), ys...)
+		ps, err := w.Mint.ProofsStateCheck(all)
+		if err != nil || len(ps) != len(all) {
+			return ps, err
+		}
+		return ps[len(r.padding):], nil
+	}
 	if !r.viaHTTP {
 		return w.Mint.ProofsStateCheck(ys)
 	}
@@ -540,6 +558,9 @@ func scriptsVia(t *testing.T, adapter string) {
 		n = 1
 	}
 	r := &runner{t: t, viaCLN: adapter == "cln", viaLND: adapter == "lnd", viaHTTP: adapter == "http"}
+	if adapter == "bulk" {
+		r.bulk = 640
+	}
 	defer func() {
 		if r.w != nil {
 			r.w.Close()
@@ -586,6 +607,10 @@ func TestScriptsViaLND(t *testing.T) { scriptsVia(t, "lnd") }
 // TestScriptsViaHTTP: likewise with the melt, the quote polls and the state checks sent through the mint's HTTP
 // handler and the answers read from its JSON (the handler layer must not change or withhold what the mint concludes).
 func TestScriptsViaHTTP(t *testing.T) { scriptsVia(t, "http") }
+
+// TestScriptsBulk: likewise with every proof-state check being part of a state check of 640 other Ys (in front): what
+// the mint concludes about a melt's inputs must not depend on how many other Ys a request asks about.
+func TestScriptsBulk(t *testing.T) { scriptsVia(t, "bulk") }
 
 // TestReplay re-runs one saved script (VERIF_REPLAY=<case json>).
 func TestReplay(t *testing.T) {
